@@ -3,6 +3,7 @@
 package main
 
 import (
+	"sort"
 	"bytes"
 	"encoding/json"
 	"fmt"
@@ -54,6 +55,21 @@ func genIsolationPlan(seed uint64, tier string) *Plan {
 		}
 		c.Listens = append(c.Listens, l)
 	}
+	congested := g.chance(12)
+	if congested {
+		// congestion: the backends are reached over TCP and one of them stops reading for a few seconds while a large
+		// burst arrives; the proxy's own queues are small in this world (their capacities are divided, rule R7), so
+		// they fill up. Whatever the proxy does with datagrams it cannot take then, it must not mix them up.
+		for i := range c.Listens {
+			for b := range c.Listens[i].Backends {
+				addr := c.Listens[i].Backends[b][6:]
+				c.Listens[i].Backends[b] = "tcp://" + addr
+				c.TCPSinks = append(c.TCPSinks, addr)
+			}
+		}
+		c.Knobs = map[string]int{"chanCapDiv": 100000, "stallAtUs": 3000 + g.intn(3000), "stallMs": g.pick2(2000, 5000), "maxSteps": 2000000}
+		p.Variant = "congested"
+	}
 	c.Faults.MinLat = 50 * time.Microsecond
 	c.Faults.MaxLat = 500 * time.Microsecond
 	// now and then the proxy's own datagram write fails (ENOBUFS): that relay is lost, nothing of it may linger
@@ -61,6 +77,9 @@ func genIsolationPlan(seed uint64, tier string) *Plan {
 	n := g.rng(5, 30)
 	if g.chance(15) {
 		n = g.rng(30, 200)
+	}
+	if congested {
+		n = g.rng(60, 200)
 	}
 	nsrc := 1 + g.intn(4)
 	lastBig := false
@@ -193,6 +212,21 @@ func execIsolation(t *testing.T, p *Plan) *Result {
 			at += time.Duration(op.DelayUs) * time.Microsecond
 			l := p.Cfg.Listens[op.Listen]
 			w.N.InjectUDP(udpAddr(hostPort(op.SrcIP, op.SrcPort)), udpAddr(hostPort(l.Addr, l.UDP)), op.Data, at+100*time.Microsecond)
+		}
+		if us := p.Cfg.Knobs["stallAtUs"]; us > 0 {
+			w.K.After(time.Duration(us)*time.Microsecond, "stall-backends", func() {
+				var ids []int
+				for id := range w.sinkEnds {
+					ids = append(ids, id)
+				}
+				sort.Ints(ids)
+				for _, id := range ids {
+					if end := w.sinkEnds[id]; !end.Closed() && !end.IsReset() {
+						end.Stall(time.Duration(p.Cfg.Knobs["stallMs"])*time.Millisecond, 0)
+						w.stat("probe:backend-stalled-during-burst")
+					}
+				}
+			})
 		}
 		w.K.Settle(time.Minute + at)
 		if w.dead() {
